@@ -247,10 +247,26 @@ def run_tables(case, res):
 
     jj = Table("jj_other")
     for db_, b in tabs:
-        if db_[0] != da[0]:
-            continue  # differently named tables: covered by one representative below
+        if db_[0] != da[0] and db_[2] != da[0] and da[2] != db_[0]:
+            continue  # differently named tables (also by alias): covered by one representative below
         same = bool(a == b)
-        res.transitions += 3
+        res.transitions += 5
+        # the same check on the paths with further row sources (UPDATE .. FROM a / UPDATE .. JOIN a): b is accepted iff a == b
+        for label, mkq in (("returning_from", lambda: PGQ.update(jj).from_(a).set("c", 1)),
+                           ("returning_join", lambda: PGQ.update(jj).join(a).on(jj.id == Field("id", table=a)).set("c", 1))):
+            try:
+                q0 = mkq()
+            except Exception:
+                continue
+            try:
+                q0.returning(Field("x", table=b))
+                got = True
+            except Exception:
+                got = False
+            if got != same:
+                res.violate("C17|Table|library-check-disagrees-with-eq|%s" % label,
+                            "the %s check treats b as %s source of the statement although a == b is %s" % (label, "a" if got else "no", same),
+                            a=da, b=db_)
         try:
             PGQ.update(a).set("c", 1).returning(Field("x", table=b))
             ret_ok = True
